@@ -103,6 +103,8 @@ def run(ctx):
                    "" if every else "some iteration of the broadcast loop calls the "
                    "listener zero or several times, or leaves the loop early")
     ctx.require("R02.order", nadd, 1, "INSERTs into the message log on add paths")
+    nfan = sum(1 for o in ctx.obligations if o.rule == "R02.fanout" and "iterates" in o.construct)
+    ctx.require("R02.fanout", nfan, 1, "broadcast loops with listener callbacks on add paths")
     # R02.key
     nreg = 0
     for p in handler_paths(model, h_open):
